@@ -4,6 +4,6 @@ CONSTANTS
   Agents = {"a1", "a2"}
   Lst = {"l1"}
   MaxOps = 1000000
-INVARIANTS MonNothingBeforeAuth MonOperatorsSeeTheStream MonNobodyBlocked
+INVARIANTS MonNothingBeforeAuth MonOperatorsSeeTheStream MonNobodyBlocked MonRefusalIsInert
 POSTCONDITION TraceAccepted
 CHECK_DEADLOCK FALSE
